@@ -325,10 +325,12 @@ theorem code_structure_as_modelled :
     F3.Gen.SkelValidate.skelFullyValidate = F3.SkelTie.SkelValidate.skelFullyValidateExpected ∧
     F3.Gen.SkelValidate.skelSuppEq = F3.SkelTie.SkelValidate.skelSuppEqExpected ∧
     F3.Gen.SkelValidate.skelInferJustValue = F3.SkelTie.SkelValidate.skelInferJustValueExpected ∧
+    F3.Gen.SkelValidate.skelToPartial = F3.SkelTie.SkelValidate.skelToPartialExpected ∧
+    F3.Gen.SkelValidate.skelValidateMessage = F3.SkelTie.SkelValidate.skelValidateMessageExpected ∧
     F3.Gen.SkelPower.skelScalePower = F3.SkelTie.SkelPower.skelScalePowerExpected ∧
     F3.Gen.SkelPower.skelPowerTableCopy = F3.SkelTie.SkelPower.skelPowerTableCopyExpected ∧
     F3.Gen.SkelPower.skelRescale = F3.SkelTie.SkelPower.skelRescaleExpected :=
-  ⟨F3.SkelTie.SkelValidate.skelValidateJustification_expected, F3.SkelTie.SkelValidate.skelFullyValidate_expected, F3.SkelTie.SkelValidate.skelSuppEq_expected, F3.SkelTie.SkelValidate.skelInferJustValue_expected, F3.SkelTie.SkelPower.skelScalePower_expected, F3.SkelTie.SkelPower.skelPowerTableCopy_expected, F3.SkelTie.SkelPower.skelRescale_expected⟩
+  ⟨F3.SkelTie.SkelValidate.skelValidateJustification_expected, F3.SkelTie.SkelValidate.skelFullyValidate_expected, F3.SkelTie.SkelValidate.skelSuppEq_expected, F3.SkelTie.SkelValidate.skelInferJustValue_expected, F3.SkelTie.SkelValidate.skelToPartial_expected, F3.SkelTie.SkelValidate.skelValidateMessage_expected, F3.SkelTie.SkelPower.skelScalePower_expected, F3.SkelTie.SkelPower.skelPowerTableCopy_expected, F3.SkelTie.SkelPower.skelRescale_expected⟩
 
 end Skeletons
 end F3.Props.C05
